@@ -253,6 +253,9 @@ func c14WellFormed(j []byte) string {
 }
 
 func c14Run(c *fw.Ctx) {
+	{
+		interfRun(c, "C14") // statement-level interleavings of operations on disjoint objects (subprocess)
+	}
 	c14Histories(c)
 	tmpls := c14Templates()
 	idAlpha := []uint64{0, 1, 2, 3, 7}
